@@ -26,6 +26,9 @@ checks = {
  "C06": ("fault_enumeration", "exhaustive product of event shapes x room versions x per-server signature/key fault states (all singles and pairs over 5 servers) x clock positions, through the real VerifyEventSignatures + KeyRing over a scripted key database under a virtual clock, against the reference required-signer set and key-validity rule",
          "Every assignment of fault states with at most two non-valid servers is executed on the real verification path; the verdict must equal 'every required server has a signature valid at origin_server_ts'.",
          "ed25519 trusted; pseudo-ID room version (mxid_mapping) not covered here", "4/C06"),
+ "C13": ("model_checking", "deviation-bounded DFS (bound 2 quick / 3 thorough) over a choice tree of tamperings and header-syntax variants applied to requests built with the real client API, delivered to the real VerifyHTTPRequest + KeyRing under a virtual clock, against a reference header grammar and exact reference signatures",
+         "Every combination of at most two (three) deviations from the transmitted request is executed on the real code; the oracle recomputes the signing object and the deterministic ed25519 signature independently.",
+         "ed25519 trusted; net/http's own request construction limits which URIs are transmissible", "4/C13"),
 }
 pending = {}
 props = [json.loads(l) for l in open('/verif/properties.jsonl')]
